@@ -17,14 +17,14 @@ import (
 // flowingFields returns the names of the fields of st from which the value sink is computed (reads inside the function plus
 // reads inside statically called repository functions whose result is part of the computation — the same rule as fieldCover).
 func flowingFields(sink ssa.Value, st *types.Struct) map[string]bool {
-	sl := core.Slice(sink)
+	sl := core.SliceShallow(sink)
 	got := fieldsRead(sl, st)
 	for v := range sl {
 		if ci, ok := v.(ssa.CallInstruction); ok {
 			if callee := core.StaticFn(ci); callee != nil && core.InRepo(callee) && callee.Blocks != nil {
 				for _, r := range core.Returns(callee) {
 					for _, res := range r.Results {
-						for f := range fieldsRead(core.Slice(res), st) {
+						for f := range fieldsRead(core.SliceShallow(res), st) {
 							got[f] = true
 						}
 					}
